@@ -297,10 +297,26 @@ func explainSelectIntersectExceptQueryWithInheritedWith(sb *strings.Builder, n *
 }
 
 func explainSelectWithUnionQuery(sb *strings.Builder, n *ast.SelectWithUnionQuery, indent string, depth int) {
+	explainSelectWithUnionQueryFormat(sb, n, indent, depth, true)
+}
+
+// explainAsSelectWithoutFormat explains the AS SELECT of a CreateQuery whose FORMAT
+// is output at CreateQuery level instead of SelectWithUnionQuery level
+func explainAsSelectWithoutFormat(sb *strings.Builder, stmt ast.Statement, depth int) {
+	if swu, ok := stmt.(*ast.SelectWithUnionQuery); ok {
+		explainSelectWithUnionQueryFormat(sb, swu, strings.Repeat(" ", depth), depth, false)
+		return
+	}
+	Node(sb, stmt, depth)
+}
+
+// explainSelectWithUnionQueryFormat explains a SelectWithUnionQuery; withFormat tells
+// whether the FORMAT clause is output at this level
+func explainSelectWithUnionQueryFormat(sb *strings.Builder, n *ast.SelectWithUnionQuery, indent string, depth int, withFormat bool) {
 	if n == nil {
 		return
 	}
-	children := countSelectUnionChildren(n)
+	children := countSelectUnionChildrenFormat(n, withFormat)
 	fmt.Fprintf(sb, "%sSelectWithUnionQuery (children %d)\n", indent, children)
 	// ClickHouse optimizes UNION ALL when selects have identical expressions but different aliases.
 	// In that case, only the first SELECT is shown since column names come from the first SELECT anyway.
@@ -344,7 +360,7 @@ func explainSelectWithUnionQuery(sb *strings.Builder, n *ast.SelectWithUnionQuer
 	}
 	// FORMAT clause - check if any SelectQuery has Format set
 	// Skip this when inside CreateQuery context, as Format is output at CreateQuery level
-	if !inCreateQueryContext {
+	if withFormat {
 		for _, sel := range n.Selects {
 			if sq, ok := sel.(*ast.SelectQuery); ok && sq.Format != nil {
 				Node(sb, sq.Format, depth+1)
@@ -612,6 +628,10 @@ func hasOnlyLiterals(exprs []ast.Expression) bool {
 }
 
 func countSelectUnionChildren(n *ast.SelectWithUnionQuery) int {
+	return countSelectUnionChildrenFormat(n, true)
+}
+
+func countSelectUnionChildrenFormat(n *ast.SelectWithUnionQuery, withFormat bool) int {
 	count := 1 // ExpressionList of selects
 	// Check if any SelectQuery has IntoOutfile set
 	for _, sel := range n.Selects {
@@ -622,7 +642,7 @@ func countSelectUnionChildren(n *ast.SelectWithUnionQuery) int {
 	}
 	// Check if any SelectQuery has Format set
 	// Skip this when inside CreateQuery context, as Format is output at CreateQuery level
-	if !inCreateQueryContext {
+	if withFormat {
 		for _, sel := range n.Selects {
 			if sq, ok := sel.(*ast.SelectQuery); ok && sq.Format != nil {
 				count++
